@@ -101,7 +101,7 @@ def sanitize_crop_inputs(points, wcs):
     return False, points, wcs
 
 
-def get_crop_item_from_points(points, wcs, crop_by_values, keepdims):
+def get_crop_item_from_points(points, wcs, crop_by_values, keepdims, array_shape=None):
     """
     Find slice item that crops to minimum cube in array-space containing specified world points.
 
@@ -124,6 +124,9 @@ def get_crop_item_from_points(points, wcs, crop_by_values, keepdims):
 
     keep_dims : `bool`
         If `False`, returned item will drop length-1 dimensions otherwise, item will keep length-1 dimensions.
+
+    array_shape : `tuple` of `int`, optional
+        The shape of the array to be cropped. If given, the region is clipped to it.
 
     Returns
     -------
@@ -190,7 +193,7 @@ def get_crop_item_from_points(points, wcs, crop_by_values, keepdims):
     # Define slice item with which to slice cube.
     item = []
     result_is_scalar = True
-    for axis_indices in combined_points_array_idx:
+    for axis, axis_indices in enumerate(combined_points_array_idx):
         if axis_indices == []:
             result_is_scalar = False
             item.append(slice(None))
@@ -198,7 +201,11 @@ def get_crop_item_from_points(points, wcs, crop_by_values, keepdims):
             # A point off the low edge of the array must extend the region to the edge,
             # not be read as an index counted from the end of the axis.
             min_idx = max(min(axis_indices), 0)
-            max_idx = max(max(axis_indices) + 1, min_idx)
+            max_idx = max(axis_indices) + 1
+            # Likewise a point off the high edge extends the region to that edge and no further.
+            if array_shape is not None:
+                max_idx = min(max_idx, array_shape[axis])
+            max_idx = max(max_idx, min_idx)
             if max_idx - min_idx == 1 and not keepdims:
                 item.append(min_idx)
             else:
